@@ -158,8 +158,11 @@ Definition expiry_kinds (ts : list sopt) : Z :=
 Definition all_read (rd : reading) (l : list bytes) : bool :=
   forallb (fun a => match rd a with Some _ => true | None => false end) l.
 (* value of the last occurrence *)
-Definition last_read (rd : reading) (l : list bytes) : option Z :=
-  match rev l with a :: _ => rd a | [] => None end.
+Fixpoint last_read (rd : reading) (l : list bytes) : option Z :=
+  match l with
+  | [] => None
+  | a :: r => match r with [] => rd a | _ => last_read rd r end
+  end.
 
 (* the deadline the options ask for: None = no expiry option; Some None = invalid expire time *)
 Definition set_deadline (rd : reading) (now : Z) (ts : list sopt) : option (option Z) :=
